@@ -18,6 +18,11 @@ CLAIMED = {
     text='encHash_components_inj, encHash_lang_sep, key_sound/key_complete (iff modulo an explicit hash collision), any_component_change_detected, redistribution_detected and the encPre versions are proved for all pairs of well-formed requests; language tags, CACHE_VERSION, FORMAT_VERSION and both allow-lists are regenerated from /repo on every run; the model pre-image is hashed with BLAKE3 by the harness and must equal the real key byte for byte on thousands of structured requests; the three aliasing defects are kernel-checked witnesses and known findings.',
     note='Trusted: Lean kernel, translator for the constants, Model/Key.lean layout (tied byte-exactly), BLAKE3 is a parameter (collisions are an explicit disjunct). WF hypotheses: hex digests, NUL-free arguments < 2^56 bytes, payload not starting with 64 hex bytes / a tag extension.',
     ref='DESIGN.md section 4 C02, Appendix A.2, B.3, B.20'),
+
+ 'C08': dict(technique='Lean 4 proof (byte-level zip writer/reader model: roundtrip for all member lists, CRC-32 single-byte theorem, payload substitution detected) + byte-exact writer correspondence + exhaustive truncation/substitution correspondence and monitor on small real entries',
+    text='roundtrip, codec_roundtrip, crc_single_byte and payload_substitution_detected are proved for every well-formed member list; the writer model reproduces the real CacheWrite archives byte for byte; the reader model is compared with the real zip reader on every truncation point and substitutions at every byte of small entries, and the real CacheRead is monitored for returning different contents. Truncations and header-field substitutions are covered by that exhaustive search only (partial), which found F-C08-b.',
+    note='Trusted: Lean kernel, Model/Entry.lean + EntryRead.lean (tied by h_entry), zstd as a parameter (dec (enc x) = x). Known findings F-C08-a (zip64 locator in a name), F-C08-b (name aliasing through a substituted central-directory name).',
+    ref='DESIGN.md section 4 C08, Appendix A.7, B.4, B.21'),
 }
 NA_REASON = 'not yet wired into ./check in this round (model and theorems exist under lean/; see DESIGN.md section 0.1)'
 def hooks():
